@@ -32,10 +32,11 @@ def pad (w : Nat) (n : Nat) : Bytes :=
   let s := natToDec n
   List.replicate (w - s.length) 48 ++ s
 
-/-- "2006-01-02" for a day number (years ≥ 0 only; Go prints a sign for negative years — out of range here) -/
+/-- "2006-01-02" for a day number; a negative year is a minus sign and the magnitude padded to four digits, as Go's
+    `appendInt(b, year, 4)` prints it -/
 def fmtDate (days : Int) : Bytes :=
   let (y, m, d) := civilFromDays days
-  pad 4 y.toNat ++ [45] ++ pad 2 m ++ [45] ++ pad 2 d
+  (if y < 0 then 45 :: pad 4 y.natAbs else pad 4 y.toNat) ++ [45] ++ pad 2 m ++ [45] ++ pad 2 d
 
 /-- "15:04:05" -/
 def fmtClock (secOfDay : Nat) : Bytes :=
